@@ -1017,7 +1017,7 @@ VARIANTS = [
 
 META = {
     "design_ref": "DESIGN.md section 3, C15",
-    "technique": "table check against reference operator semantics, constant-set evaluation of the builtin whitelist, exception-escape analysis, who-may-call rule for the raw evaluator, handler-shape check; set-order fence (deep test, reference table of order-blind callees), cost fence, lifetime of evaluated values, origin of the applied operator",
+    "technique": "table check against reference operator semantics, constant-set evaluation of the builtin whitelist, exception-escape analysis, who-may-call rule for the raw evaluator, handler-shape check; set-order fence (deep test, reference table of order-blind callees), cost fence, lifetime of evaluated values, origin of the applied operator; path-condition fence on methods whose name comes from the analysed code",
     "level_text": ("Decides on the current source that the evaluator's operator table is Python's, that it applies "
                    "operators to operands in source order, that it can only invoke pure builtins, that every failure of "
                    "a foreign call becomes the 'unknown' signal and every consumer handles that signal without "
